@@ -23,8 +23,16 @@ UnitOK(nv) == LET d == Norm2(nv) - 65536 IN d <= 1536 /\ d >= -1536          \* 
 \* locally flat: of the 8 points of the ring at distance 6/256 between 3 and 5 are inside (a corner of the SAME primitive
 \* gives fewer or more); only then a step along/against the normal is a meaningful test   (2-D variables)
 Ring == {<<6, 0>>, <<-6, 0>>, <<0, 6>>, <<0, -6>>, <<4, 4>>, <<4, -4>>, <<-4, 4>>, <<-4, -4>>}
-Flat(e, q) == Len(q.val[V(e)]) # 2 \/
-              LET c == Cardinality({d \in Ring : In(e, [q EXCEPT !.val[V(e)] = <<@[1] + d[1], @[2] + d[2]>>])}) IN c >= 3 /\ c <= 5
+\* 3-D variables: the 48 points (+-a, +-b, +-c), (a, b, c) a permutation of (6, 2, 1) -- antipodal pairs none of which lies in a
+\* coordinate plane or a plane x+-y+-z = const through the sample, so on a flat piece of surface exactly one point of every
+\* pair is inside (24); at an edge or a vertex of a polyhedron far fewer or far more are
+Ring3 == {<<s[1] * p[1], s[2] * p[2], s[3] * p[3]>> : s \in {-1, 1} \X {-1, 1} \X {-1, 1},
+                                                      p \in {<<6, 2, 1>>, <<6, 1, 2>>, <<2, 6, 1>>, <<1, 6, 2>>, <<2, 1, 6>>, <<1, 2, 6>>}}
+Flat(e, q) == IF Len(q.val[V(e)]) = 2
+              THEN LET c == Cardinality({d \in Ring : In(e, [q EXCEPT !.val[V(e)] = <<@[1] + d[1], @[2] + d[2]>>])}) IN c >= 3 /\ c <= 5
+              ELSE IF Len(q.val[V(e)]) = 3
+              THEN LET c == Cardinality({d \in Ring3 : In(e, [q EXCEPT !.val[V(e)] = <<@[1] + d[1], @[2] + d[2], @[3] + d[3]>>])}) IN c >= 20 /\ c <= 28
+              ELSE TRUE
 \* clause for one sample; "skip" when not judged
 PointClause(e, q, nv) ==
     IF ~Finite(nv) THEN "normal-not-finite"
